@@ -17,6 +17,7 @@
       RELOAD t wall chk                  -> [TI status]
       SWEEP t wall chk k v.. j x..       -> [TI n; (TI status+4*big; TI hash) * n]
       BLOCKSAVE t                        -> [TI 1; TI 1]  (save fails at open; dump unchanged)
+      FAILSWEEP t wall                   -> [TI calls; TI all failed; TI dump unchanged; TI later save ok]
       PROBE t wall chk                   -> [TI status+4*big; TI hash]  (load the file, flags-only hash)
       SLEEP t ms                         -> []                                      *)
 From Ferrous Require Import Base.Bytes Model.Resp Model.Types Model.Strings Model.Rdb.
@@ -299,6 +300,15 @@ Definition rdb_op (s : mst) (op : list tok) : list tok * mst :=
         (* the temporary file cannot be opened: write_snapshot fails before its first write;
            the dump is untouched (Props/C10.v c10_failed_save_keeps_dump with k = 0) *)
         ([TI 1; TI 1], s)
+      else if beq name (bs "FAILSWEEP") then
+        (* every write call of a save fails in turn (hook-rdb-failat): each such save reports
+           failure and leaves the dump unchanged, a later save succeeds (Props/C10.v); the
+           number of calls is that of the writer model.  [TI wall] = ctime*1000 read by the harness *)
+        match rest with
+        | [TI wall] => ([TI (calls_save ver_default (wall / 1000) t ds); TI 1; TI 1; TI 1],
+                        {| m_ds := map (purge t) ds; m_disk := m_disk s |})
+        | _ => ([TB (bs "BADOP")], s)
+        end
       else if beq name (bs "PROBE") then
         match rest with
         | [TI wall; TI chk] =>
